@@ -141,7 +141,7 @@ fn check(c: &Case, ctx: &Ctx) -> Outcome {
 const RULE: &str = "generated: file of 2-8 related samples; a non-empty proper subset deleted (names in generated order, on the command line or one per line in a names file, in place or with -o); 20% refusal cases (unknown name added / all names). Oracle: nk --full-info == model (drop columns, drop emptied rows) == nk of ska build of the remaining samples; refusals exit non-zero and leave the file byte-identical. Non-trivial: a refusal case, or (a row disappears and (>=2 non-adjacent columns deleted or names-file route)).";
 
 fn stages(tier: Tier) -> Vec<Box<dyn Stage>> {
-    vec![gen_stage_show("delete", RULE, tier.pick(800, 12_000), 200, case_strategy, check, |c| {
+    vec![gen_stage_show("delete", RULE, tier.pick(2000, 24_000), 200, case_strategy, check, |c| {
         let (_a, s) = gen::materialise_set(&c.set);
         json!({"k": c.set.k, "two_strand": c.set.rc, "delete_idx": del_indices(c, s.len()), "names_file": c.names_file, "in_place": c.in_place, "refusal": c.refusal,
             "samples": s.iter().map(|(n, r)| json!({"name": n, "records": r.iter().map(|x| lossy(x)).collect::<Vec<_>>()})).collect::<Vec<_>>()})
